@@ -231,7 +231,7 @@ func (m *Machine) check(label string, c *Term) {
 func (m *Machine) recordViolation(kind, label, msg string, model Model) {
 	v := &Violation{Kind: kind, Label: label, Msg: msg, Site: m.site(), Model: model,
 		Trace: append([]int64{}, m.trace...), Nondets: append([]NondetRec{}, m.nondets...),
-		Events: append([]Event{}, m.events...), Budget: m.allocBudget}
+		Events: append([]Event{}, m.events...), Budget: m.allocBudget, LoopBound: m.loopBound}
 	m.viols = append(m.viols, v)
 }
 
@@ -378,6 +378,7 @@ type HarnessResult struct {
 	Paths       int
 	PathsOK     int
 	Infeasible  int
+	NoVariant   int
 	Steps       int64
 	Viols       []*FoundViolation
 	Unsupported []string
@@ -390,6 +391,7 @@ type HarnessResult struct {
 	AssertLabels map[string]int
 	SymPaths    int // paths with at least one symbolic variable
 	Truncated   bool
+	UsedVariant bool
 	SolverTime  time.Duration
 	Wall        time.Duration
 }
@@ -463,6 +465,11 @@ func (P *Program) Explore(h *Harness, workers int, maxPaths int, nWitness int) *
 				}
 			}
 			hr.Inconclusive = append(hr.Inconclusive, res.Inconclusive...)
+			for _, nd := range res.Nondets {
+				if nd.Kind == "variant" {
+					hr.UsedVariant = true
+				}
+			}
 			switch res.End.Kind {
 			case "ok":
 				hr.PathsOK++
@@ -471,6 +478,8 @@ func (P *Program) Explore(h *Harness, workers int, maxPaths int, nWitness int) *
 				}
 			case "infeasible":
 				hr.Infeasible++
+			case "novariant":
+				hr.NoVariant++
 			case "unsupported":
 				if len(hr.Unsupported) < 20 {
 					hr.Unsupported = append(hr.Unsupported, res.End.String())
